@@ -17,7 +17,7 @@ func init() {
 			"stopped, and the old one is stopped only on the start-success edge; (REFCOUNT) in every shared-listener Acquire the socket is created only when absent, the handle count is " +
 			"incremented exactly once on every success return and not at all on failure returns, count and socket are accessed only under the listener's mutex, and the shared socket is " +
 			"closed only on the count == 0 edge after the decrement; (SURVIVE) nothing reachable from the stream handler consults context cancellation (Done/Err/AfterFunc/Cause), so " +
-			"cancelling the serve context at listener shutdown cannot close connections that are relaying, and the serve loop itself closes no connection outside the per-connection goroutine.",
+			"cancelling the serve context at listener shutdown cannot close connections that are relaying, and the serve loop itself closes no connection outside the per-connection goroutine. (CLOSEDGUARD/DELIVER) a handle excludes the closed state first and returns every connection it has taken; a taken read request is awaited unconditionally; reader goroutines stop only when the socket is closed or on their cancel arm.",
 		NotDecided: "kernel accept-queue behaviour during the overlap, timing, that every accepted connection is handled by exactly one generation at run time (C12 covers the hand-off structure).",
 	})
 	register(&PropDef{ID: "C12", Level: "other", Run: runC12,
@@ -26,7 +26,7 @@ func init() {
 			"the channel is a private buffered response channel), and every way out of the cancel arm on which the accept had succeeded closes the pending connection; (PROMPTREPLY) once the reader has taken a read request it " +
 			"answers it without any further blocking socket call (the handle waits for that answer without watching its close signal); (LASTCLOSE) on the count == 0 edge the socket is closed, the " +
 			"reader is signalled, and the manager callback is invoked at most once (field cleared before the call); (CLOSEDGUARD) every handle method that blocks on the shared channel also " +
-			"waits on the handle's close channel and excludes the closed state first (shared channel niled under the handle mutex by Close, or a dominating non-blocking poll of the close channel); (HANDLECLOSE) every path through a handle's Close that changes its state or runs the release callback also closes the close channel.",
+			"waits on the handle's close channel and excludes the closed state first (shared channel niled under the handle mutex by Close, or a dominating non-blocking poll of the close channel); (HANDLECLOSE) every path through a handle's Close that changes its state or runs the release callback also closes the close channel. (DELIVER) a handle returns every connection it has taken and awaits a taken read request unconditionally; reader goroutines stop only on the socket-closed test or their cancel arm (a transient accept/read error does not end them).",
 		NotDecided: "actual delivery under schedules (which handle gets which datagram), re-bindability of the port at the OS level, fairness of select.",
 	})
 }
